@@ -37,6 +37,17 @@ Theorem C18_stop_idempotent : forall c tid a st c1 c2 c3,
 Proof. exact stop_idempotent. Qed.
 Print Assumptions C18_stop_idempotent.
 
+(* family D (a second Stop -- concurrent, repeated, or made by a sink the first Stop is joining -- while the first is in
+   progress): together with C18_stop_idempotent (the loser of the CAS returns with three own steps, each enabled in every
+   shared state whatever else is running, and changes nothing) this is the model's reading of "a Stop that is not the
+   first one returns at once". The harness event EStopAgainOver (that call still running after 2 s) = clause
+   ClSecondStopBlocked is never produced by the model, on any schedule. The premise (the already-stopped branch of the
+   real Stop contains no wait) is what family D tests on the real code. *)
+Theorem C18_second_stop_never_blocked : forall c cap0 async sync roles sched, c_track_sync c = true ->
+  chk_state (lrun c sched (linit cap0 async sync roles)) <> Some ClSecondStopBlocked.
+Proof. exact second_stop_never_blocked. Qed.
+Print Assumptions C18_second_stop_never_blocked.
+
 (* Emit after Stop (flag set, channel pointer nil): returns within two own steps, never blocks, changes nothing *)
 Theorem C18_emit_after_stop_noop : forall c tid ch a s, stopped s = true -> ptr_nil s = true ->
   exists p', lpstep c tid ch PdStart a s = Some (p', [], s, []) /\
